@@ -9,6 +9,7 @@ import MotoModel.Proofs.DiskUpdateText
 import MotoModel.Proofs.DiskAnnounceOrder
 import MotoModel.Props.C02
 import MotoModel.Props.C01
+import MotoModel.Proofs.DiskBlockCount
 namespace Moto.C12
 open Moto
 
@@ -385,5 +386,23 @@ open Moto.Disk in
 theorem announcements_in_order (w : Tape.World) (srcs : List Str) (img : Image) :
     ((storedOn 0 (batchEvents w srcs img)).map (·.2)).Sublist (srcs.filterMap (srcEv w)) :=
   Disk.announcements_in_order w srcs img
+
+
+open Moto.Disk in
+/-- **C12 (creating an archive and later listing or extracting it report the same sizes and block counts for the same file —
+    disk archives, whole batch)**: for every create/add batch on a consistent image, every file the report announces stored —
+    in the section of side `k`, with `ev.bytes` bytes and `ev.blocks` blocks — is, in the image the batch writes, a live entry of
+    side `k` in a slot that held nothing before, and the event a later `--list` / `--extract` prints for that entry
+    (`evOfEntry`: `disk_list_report` / `report_lines_are_the_files`) carries the same byte size and the same block count, which is
+    the length of the entry's chain in the allocation table: the blocks announced are the blocks the file really occupies
+    (Proofs/DiskBlockCount.lean: on a consistent side the chain length of a tool-written entry is determined by its "bytes in
+    the last sector" and the content length, and equals `reqBlocks`). -/
+theorem disk_announced_sizes_and_blocks_are_the_listed_ones (w : Tape.World) (verbose : Bool) (img : Image) (srcs : List Str)
+    (himg : ImgOk img) (hs : ∀ src ∈ srcs, CleanSrc src) :
+    ∃ st, performCore w verbose img srcs = .ok st ∧ ImgOk st.img
+      ∧ ∀ p ∈ storedOn 0 (batchEvents w srcs img), ∃ j bat own e, j < 112 ∧ SideInv (st.img.getD p.1 []) bat own
+          ∧ imgFileAt img p.1 j = none ∧ entryAt (st.img.getD p.1 []) own j = some e
+          ∧ (evOfEntry bat e).bytes = p.2.bytes ∧ (evOfEntry bat e).blocks = p.2.blocks ∧ (own j).length = p.2.blocks :=
+  batch_blocks_listed w verbose img srcs himg hs
 
 end Moto.C12
